@@ -45,6 +45,9 @@ func (c *Cluster) startRealNode(cn *CNode, dir string) error {
 		MaxReconnectWaitTime:      time.Second,
 		WALSync:                   time.Duration(cfg.WALSyncNanos),
 	}
+	if cfg.MaxMemoryRatio > 0 && !cn.Leader {
+		srv.MaxMemory = cfg.MaxMemoryRatio
+	}
 	if v := cfg.Extra["clusterQueryTimeout"]; v > 0 {
 		srv.ClusterQueryTimeout = time.Duration(v)
 	}
